@@ -76,14 +76,14 @@ Theorem C01_cg_residual_truthful prm f x0 junk nr r w :
   k_res r = true_res norm_a A P false f (k_x r) / nr /\ cg_r w = k_residual f (A (k_x r)).
 Proof. exact (cg_residual_truthful Srt Seqb n A P A_len P_len A_lin prm f x0 junk nr r w). Qed.
 
-(* BiCGStab, both sides, both exits (after the first or the second half step); the preconditioned
-   residual for side = left.  Excluded: check_after with zero iterations made -- see the
-   refutation below. *)
+(* BiCGStab, both sides, both exits (after the first or the second half step), with or without
+   check_after, also when no iteration is made; the preconditioned residual for side = left.
+   (Before fix 5724e11 check_after returned the placeholder 2*eps when the loop body was not
+   entered: known_findings.d/C01-bicgstab-check-after-placeholder.json, status fixed.) *)
 Hypothesis P_lin : linear_on n P.
 Theorem C01_bicgstab_residual_truthful prm f x0 junk nr r w :
   length f = n -> length x0 = n -> k_prologue norm_a prm f = Go nr ->
   bicgstab A P prm f x0 junk = (KOk r, w) ->
-  p_ca prm = false \/ k_it r <> 0 ->
   k_res r = true_res norm_a A P (p_left prm) f (k_x r) / nr.
 Proof. exact (bicgstab_residual_truthful Srt Seqb n A P A_len P_len A_lin P_lin prm f x0 junk nr r w). Qed.
 End Ring.
@@ -103,7 +103,6 @@ Theorem C01_bicgstab_residual_truthful_Qc n (A P : vec QcS -> vec QcS) prm f x0 
   linear_on n A -> linear_on n P ->
   length f = n -> length x0 = n -> k_prologue norm_a prm f = Go nr ->
   bicgstab A P prm f x0 junk = (KOk r, w) ->
-  p_ca prm = false \/ k_it r <> 0 ->
   k_res r = true_res norm_a A P (p_left prm) f (k_x r) / nr.
 Proof. intros HA HP HL HL'. exact (C01_bicgstab_residual_truthful QcS QcS_ring QcS_eqb n A P HA HP HL HL' prm f x0 junk nr r w). Qed.
 Print Assumptions C01_bicgstab_residual_truthful_Qc.
@@ -143,20 +142,15 @@ Definition prm0 (maxiter : nat) (tol : QcS) (ca : bool) : @kprm QcS :=
 Definition bs_junk0 : @bs_ws QcS := mkBsWs [] [] [] [] [] [] [].
 Definition cg_junk0 : @cg_ws QcS := mkCgWs [] [] [] [].
 
-(* FULL STATEMENT (false): for every prm, bicgstab returns ||f - A x|| / ||f||.
-   With check_after = true and an empty loop (here maxiter = 0) the placeholder 2*eps/||f|| is returned. *)
-Theorem C01_bicgstab_check_after_refuted :
-  exists prm f x0,
-    match bicgstab idop idop prm f x0 bs_junk0 with
-    | (KOk r, _) => k_it r = 0 /\ p_ca prm = true /\
-                    k_res r <> true_res norm_a idop idop (p_left prm) f (k_x r) / norm_a f
-    | _ => False
-    end.
-Proof.
-  exists (prm0 0 (qc 1 4) true), [qc 1 1], [qc 0 1].
-  vm_compute. repeat split. discriminate.
-Qed.
-Print Assumptions C01_bicgstab_check_after_refuted.
+(* the former counterexample of the check_after placeholder (maxiter = 0, check_after = true):
+   the current code returns the true residual *)
+Example C01_bicgstab_check_after_now_truthful :
+  match bicgstab idop idop (prm0 0 (qc 1 4) true) [qc 1 1] [qc 0 1] bs_junk0 with
+  | (KOk r, _) => k_it r = 0 /\
+                  k_res r = true_res norm_a idop idop false [qc 1 1] (k_x r) / norm_a [qc 1 1]
+  | _ => False
+  end.
+Proof. vm_compute. split; reflexivity. Qed.
 
 (* FULL STATEMENT (false): the returned residual is ||f - A x_returned|| / ||f|| for every f.
    A right-hand side that is tiny but not zero takes the trivial-solution exit: x := 0 and ||f||
